@@ -167,7 +167,9 @@ Section Sem.
       match l with
       | [] => Some (CDone GNormal w)
       | (_, b) :: r => match exec_list n b w with
-                       | Some (CDone GFallthrough w') => exec_from n r w'
+                       | Some (CDone GFallthrough w') =>
+                           (* Go rejects a fallthrough in the last clause *)
+                           match r with [] => Some CStuck | _ => exec_from n r w' end
                        | Some (CDone GBreak w') => Some (CDone GNormal w')
                        | other => other
                        end
